@@ -59,16 +59,22 @@ FASTOR_INLINE void _transpose(const T * FASTOR_RESTRICT a, T * FASTOR_RESTRICT o
         for (; i< M0; i+=innerBlock) {
             // Pack A
             for (size_t ii=0; ii<innerBlock; ++ii) {
-                _vec.load(&a[(i+ii)*N+(j)],false);
-                _vec.store(&pack_a[ii*outerBlock]);
+                // a row of the block spans outerBlock elements i.e. numSIMDRows vectors
+                for (size_t jj=0; jj<outerBlock; jj+=V::Size) {
+                    _vec.load(&a[(i+ii)*N+(j+jj)],false);
+                    _vec.store(&pack_a[ii*outerBlock+jj]);
+                }
             }
             // Perform transpose on pack_a and get the result
             // on pack_out
             internal::_transpose_dispatch<T,innerBlock,outerBlock>(pack_a,pack_out);
             // Unpack pack_out to out
             for (size_t jj=0; jj<outerBlock; ++jj) {
-                _vec.load(&pack_out[jj*innerBlock]);
-                _vec.store(&out[(j+jj)*M+(i)],false);
+                // a row of the transposed block spans innerBlock elements i.e. numSIMDCols vectors
+                for (size_t ii=0; ii<innerBlock; ii+=V::Size) {
+                    _vec.load(&pack_out[jj*innerBlock+ii]);
+                    _vec.store(&out[(j+jj)*M+(i+ii)],false);
+                }
             }
         }
 
